@@ -3,7 +3,7 @@ everything the lifecycle monitors (C01, C02, C04, C05, C06, C13, C18) judge.
 
 case = {
   'program': <programs DSL>,
-  'plan':  [{'at': <int slot> | 'q' | ['listener', <event>, <n>] | ['step', <i>], 'act': [kind, arg]}, ...],
+  'plan':  [{'at': <int slot> | 'q' | ['listener', <event>, <n>] | ['step', <i>] | ['exit', <state>, <n>], 'act': [kind, arg]}, ...],
   'drain': bool      -- complete the run with final play / owed resumes
   'probe': bool      -- final probing kill from a live end configuration
   'barrage': bool    -- after termination fire every control call / late callbacks
@@ -235,6 +235,12 @@ class Run:
                 trig[2] = True
                 self.apply(trig[1][1], via='/'.join(str(k) for k in key), plan_idx=trig[1][0])
 
+    def _on_exit(self, proc, label):
+        # from inside the process's own (non-raising) exit hook, i.e. in the middle of a transition
+        counts = self.__dict__.setdefault('_exit_counts', {})
+        counts[label] = counts.get(label, 0) + 1
+        self._trigger(['exit', label, counts[label]])
+
     def _on_step(self, proc, i):
         self.step_entries += 1
         self._trigger(['step', i])
@@ -419,6 +425,7 @@ class Run:
             finally:
                 programs.CURRENT_REC = None
             self.rec.hooks['step'] = self._on_step
+            self.rec.hooks['exit'] = self._on_exit
             self.early_future = proc.future()  # what a waiter who asked before the run holds
             proc.add_cleanup(lambda: self.rec.ev('cleanup'))
             if case.get('cleanup_chain'):
